@@ -88,11 +88,13 @@ DecideFull(z) ==
                  m \in {<<"once", "once">>, <<"missing", "once">>, <<"once", "check">>}, i \in {"A", "B", "X", ""}})
 
 \* ---------------------------------------------------------------- a target with a missing layer
-HoleScns(z) ==
+HoleSpace(Es, Mts, Sws) ==
   {Scn(Conf(0, <<Opt(e, "", mt, bk, sw)>>), Pop("r1", [v1 |-> si, v2 |-> "H"]), Pop("r1", [v1 |-> ti, zz |-> zi]), p) :
-     e \in {Img1("r1", "v1"), [E0 EXCEPT !.deny = <<F(<<"v2">>, "group")>>], E0}, si \in {"H", "A"}, ti \in {"H", "A", ""},
-     zi \in {"H", "C"}, mt \in {<<>>, <<"dockerman">>}, bk \in {"none", "tagtpl", "fullref"}, sw \in Switches,
+     e \in Es, si \in {"H", "A"}, ti \in {"H", "A", ""}, zi \in {"H", "C"}, mt \in Mts, bk \in {"none", "tagtpl", "fullref"}, sw \in Sws,
      p \in {<<Run("once")>>, <<Run("missing")>>, <<Run("check")>>, <<Run("once"), Move("r1", "v1", "H"), Run("once")>>}}
+HoleScns(z) == HoleSpace({Img1("r1", "v1"), [E0 EXCEPT !.deny = <<F(<<"v2">>, "group")>>]}, {<<>>},
+                         {<<FALSE, FALSE, FALSE, FALSE>>, <<FALSE, TRUE, FALSE, FALSE>>, <<TRUE, TRUE, FALSE, FALSE>>, <<FALSE, FALSE, TRUE, FALSE>>})
+HoleFull(z) == HoleSpace({Img1("r1", "v1"), [E0 EXCEPT !.deny = <<F(<<"v2">>, "group")>>], E0}, {<<>>, <<"dockerman">>}, Switches)
 
 \* ---------------------------------------------------------------- a tag moving forth and back
 RollScns(z) ==
@@ -163,7 +165,7 @@ CONSTANT Space
 SpaceScns == CASE Space = "quick" -> <<FilterScns(0), DecideQuick(0), RollScns(0), ParScns(0), RegScns(0), SharedBkSeqScns(0), SameScns(0), HoleScns(0),
                                       BkForceScns(0), S14Quick(0)>>
                [] Space = "gen" -> <<DecideQuick(0), RollScns(0), ParScns(0), RegScns(0), SameScns(0), S14Quick(0), BkForceScns(0), HoleScns(0)>>
-               [] Space = "full" -> <<DecideFull(0)>>
+               [] Space = "full" -> <<DecideFull(0), HoleFull(0)>>
                [] Space = "par" -> <<ParScns(0)>>
                [] Space = "s14" -> <<S14Scns(0)>>
                [] Space = "bkforce" -> <<BkForceScns(0)>>
